@@ -85,6 +85,32 @@ def r_delegates(chk, P, tier):
         chk.expect(ok, fn, "%s: %s" % (fn, [pp(r) for r in rets]), loc=P.loc(NT + "::" + fn))
 
 
+def _linear(t):
+    """({atom: coefficient}, constant) of an integer term built from +, *, constants, the argument and hms(&self).k; None otherwise"""
+    if t[0] == "field" and t[2] == 0 and t[1][0] == "bin" and t[1][1].endswith("WithOverflow"):
+        t = ("bin", t[1][1][:-12], t[1][2], t[1][3])
+    if t[0] in ("const", "named") and isinstance(const_of(t), int):
+        return ({}, const_of(t))
+    if t == ("arg", 2):
+        return ({("arg", 2): 1}, 0)
+    if t[0] == "field" and is_call(t[1], name=NT + "::hms") and arg_field(unref(t[1][2][0])) == (1, None):
+        return ({"hms.%d" % t[2]: 1}, 0)
+    if t[0] == "bin" and t[1] in ("Add", "Mul"):
+        a, b = _linear(t[2]), _linear(t[3])
+        if a is None or b is None:
+            return None
+        if t[1] == "Add":
+            d = dict(a[0])
+            for k, v in b[0].items():
+                d[k] = d.get(k, 0) + v
+            return (d, a[1] + b[1])
+        if not a[0]:
+            return ({k: v * a[1] for k, v in b[0].items()}, a[1] * b[1])
+        if not b[0]:
+            return ({k: v * b[1] for k, v in a[0].items()}, a[1] * b[1])
+    return None
+
+
 def r_with(chk, P, tier):
     chk.rule("COPY.with", "with_hour/minute/second replace one component of secs and copy frac; with_nanosecond copies secs", floor=8)
     spec = {"with_hour": (23, {3600}), "with_minute": (59, {60, 3600}), "with_second": (59, {60}), "with_nanosecond": (1_999_999_999, set())}
@@ -102,6 +128,12 @@ def r_with(chk, P, tier):
         else:
             got = {const_of(x[3]) for x in walk_terms(secs) if x[0] == "bin" and const_of(x[3]) is not None}
             good = arg_field(frac) == (1, 1) and got == consts and ("arg", 2) in set(walk_terms(secs))
+            if not good and arg_field(frac) == (1, 1):
+                # second idiom: the seconds are recombined from hms(): 3600 * h + 60 * m + s with exactly the named component replaced by the argument
+                lf = _linear(secs)
+                want = {"with_hour": {("arg", 2): 3600, "hms.1": 60, "hms.2": 1}, "with_minute": {"hms.0": 3600, ("arg", 2): 60, "hms.2": 1},
+                        "with_second": {"hms.0": 3600, "hms.1": 60, ("arg", 2): 1}}[m]
+                good = lf is not None and lf[1] == 0 and lf[0] == want
         chk.expect(good, m + " value", "%s builds %s" % (m, pp(t)[:200]), loc=P.loc(fn))
 
 
